@@ -180,6 +180,19 @@ def run_impl(case):
     if not same(f.rotate90(a1, a2, k=k, reference_point=Rf).rotate90(a1, a2, k=k2, reference_point=Rf),
                 f.rotate90(a1, a2, k=k + k2, reference_point=Rf)):
         fail(f"k={k} then k={k2} differs from k={k + k2}")
+    # ---- the copying form returns an object of its own, whatever k: changing the result in place (geometry,
+    #      subregions, array, validity) must leave the original as it was (whole turns included)
+    for kk in sorted({k, k % 4, 4 * (k // 4), 0, -4}):
+        for what, src in (("field", f), ("mesh", f.mesh), ("region", f.mesh.region)):
+            keep = tc.snap(f)
+            try:
+                out = src.rotate90(a1, a2, k=kk, reference_point=Rf)
+            except Exception:
+                continue
+            tc.disturb(out)
+            if not same_state(tc.snap(f), keep, rel=0):
+                fail(f"changing the {what} returned by the copying rotate90(k={kk}) in place changed the original")
+                break
     # ---- region / mesh / field consistent
     gm = f.mesh.rotate90(a1, a2, k=k, reference_point=ref)
     if not same_state(tc.snap(gm), tc.snap(g.mesh)):
